@@ -1359,9 +1359,9 @@ func main() {
 	c.Must(err)
 	r := c.NewRng(a.Seed)
 	cases := corpus()
-	nParse := a.N * 40 / 100
-	nRedir := a.N * 22 / 100
-	nSig := a.N * 13 / 100
+	nParse := a.N * 35 / 100
+	nRedir := a.N * 20 / 100
+	nSig := a.N * 12 / 100
 	nServe := a.N - nParse - nRedir - nSig
 	for i := 0; i < nParse; i++ {
 		cases = append(cases, parseCase(genURI(r, pickDomains(r))))
